@@ -51,6 +51,7 @@ def evaluate(prop, cases, procs):
     t2 = time.time()
     log(f"  impl {t1-t0:.1f}s model {t2-t1:.1f}s for {len(cases)} cases")
     recs = []
+    post = []   # (record index, label, model line): proved-sound boolean checkers run on the implementation's output
     for c, i, m, ln in zip(cases, impl, model, lines):
         if isinstance(i, tuple) and i and i[0] == "HARNESS":
             recs.append({"case": c, "impl": i, "model": m, "agree": False, "oracle": ("harness", i[1]), "line": ln})
@@ -61,6 +62,15 @@ def evaluate(prop, cases, procs):
         except Exception as e:
             orc = ("harness", f"oracle crashed: {type(e).__name__}: {e}")
         recs.append({"case": c, "impl": i, "model": m, "agree": agree, "oracle": orc, "line": ln})
+        if hasattr(prop, "post_checks"):
+            for label, k, args in prop.post_checks(c, i):
+                post.append((len(recs) - 1, label, Model.line(k, args)))
+    if post:
+        res = run_model([p[2] for p in post], shards=procs)
+        for (ri, label, ln), r in zip(post, res):
+            if r != [[1]] and not (isinstance(r, list) and r and all(v == 1 for v in r[0])):
+                if recs[ri]["oracle"] is None:
+                    recs[ri]["oracle"] = (label, f"proved checker rejected the implementation's output: {ln} -> {r}")
     return recs, lines, model
 
 
